@@ -36,6 +36,18 @@ CLAIMED.update({
    text='accept <=> policy membership, ValueError-only refusal, silent fallback under *, and no late Python-side failure for every accepted pair, over all 47,040 lattice points (24 selectors x 980 configs x 2 algorithms): the lattice is finite, so the enumeration is a complete decision of these clauses.',
    note='Not decided: the interpreter prepares the model and its outputs track the float model (external LiteRT runtime).',
    design='§4 C13'),
+ 'C02': dict(
+   technique='contract-based deductive verification: AST symbolic executor over the real insert_quant/insert_dequant and TransformationPerformer code with sidecar contracts (whole-view postconditions, frames, ghost op-id invariant), typed quantifier instantiation -> QF VCs (z3)',
+   level='proof',
+   text='Skeleton clauses as whole-view postconditions of the real insert_quant/insert_dequant (original operators keep object, order, opcode, outputs; ONLY the listed consumers are rewired, every other operand of every operator unchanged; graph outputs rewired iff the graph-output marker is listed; graph inputs, tensor names/shapes/buffers unchanged) and the op-id bookkeeping of _apply_single_transformation/_update_op_id_map (arguments handed to the transformation are the current positions of exactly the listed operators; map re-established) for all graph sizes. Signature remapping and the generator->performer composition only by the labelled bounded end-to-end stand-in.',
+   note='Unchecked: serializer fidelity; object-API attribute-bag model; _update_instructions/_apply_transformations/transform_graph loops and _remap_signature_outputs are not yet under contract (bounded stand-in through the public API covers them).',
+   design='§4 C02'),
+ 'C19': dict(
+   technique='contract-based deductive verification: frame (modifies) clauses and subgraph-local postconditions of the real transformation and performer functions, discharged by z3 via the AST symbolic executor',
+   level='proof',
+   text='Every heap store of insert_quant/insert_dequant/add_op_code/add_new_activation_tensor is checked against a frame that admits only objects of the instruction\'s own subgraph, the shared op-code table (extended, existing entries fixed) and fresh objects; _update_op_id_map/_apply_single_transformation leave the op-id maps of every other subgraph untouched. Hence the final state of subgraph i is a function of its own instructions.',
+   note='Assumes object graphs of different subgraphs are disjoint. Name-keyed plan generation and shared constants (C15) are not re-proved here; no end-to-end multi-signature comparison yet.',
+   design='§4 C19'),
  'C14': dict(
    technique='contract-based verification of frame (modifies) / reads clauses by a conservative interprocedural may-mutate-a-parameter analysis over the real ASTs (callee summaries to a fixpoint, registry dispatch resolved from source), with native before/after replay',
    level='proof',
